@@ -12,7 +12,7 @@ META = {
             "area with the tags; multipolygon relation -> area whose polygons follow outer/inner members; other relation -> "
             "relation whose members point at what the elements became; key mapping table). TLC enumerates 576 OSM inputs "
             "(closed/open/clockwise/missing ways, multipolygons with missing or open members, relations whose ids collide "
-            "with way ids) and 343 files with three relations in sequence, each one of seven shapes (multipolygons of one "
+            "with way ids) and 512 files with three relations in sequence, each one of eight shapes (multipolygons of one "
             "to three polygons with and without inner loops, a route), checks ClosedWayTags and MembersPointAtAreas, and prints the expected world; each input is "
             "ingested with ingest.BuildWorldFromOSM, from a .osm.pbf file written with osm.Writer, and as a compact index and lookup (tags, geometry, members), "
             "enumeration and search must equal the specification's.",
@@ -31,7 +31,7 @@ def run(ctx):
     # family 1: per-element alternatives (MCOSMMap); family 2: sequences of multipolygon relations of different
     # shapes in one file (MCOSMMap2): what a relation becomes must not depend on the relations read before it
     for module, cap_basic, cap_compact in (("MCOSMMap", ctx.pick(300, 576), ctx.pick(40, 576)),
-                                           ("MCOSMMap2", ctx.pick(343, 343), ctx.pick(12, 343))):
+                                           ("MCOSMMap2", ctx.pick(280, 512), ctx.pick(10, 512))):
         run = ctx.tlc(module, module + ".cfg", timeout=1500, workers=4)
         exported = run.lines.get("CASE", [])
         qs = run.lines.get("QUERIES", [None])[0]
